@@ -356,7 +356,8 @@ class MediaCombineDisallowed(Exception):
         return self.args[0]
 
     def _combinable(rule):
-        combinable = rule.COMMENT, rule.STYLE_RULE, rule.IMPORT_RULE
+        # an @import that had to be kept cannot be put into @media either
+        combinable = rule.COMMENT, rule.STYLE_RULE
         return rule.type in combinable
 
 
